@@ -66,6 +66,22 @@ def _par(self):
     return r
 
 
+_orig_cs = NSM.NetlistSimplifyMixin._simplify_combine_series
+_orig_cp = NSM.NetlistSimplifyMixin._simplify_combine_parallel
+
+
+def _cs(self, skip, explain=False):
+    LOG.append(['stage', 'series', [{'name': str(n), 'type': str(e.type), 'nodes': [str(x) for x in e.node_names]} for n, e in self._elements.items()]])
+    return _orig_cs(self, skip, explain)
+
+
+def _cp(self, skip, explain=False):
+    LOG.append(['stage', 'parallel', [{'name': str(n), 'type': str(e.type), 'nodes': [str(x) for x in e.node_names]} for n, e in self._elements.items()]])
+    return _orig_cp(self, skip, explain)
+
+
+NSM.NetlistSimplifyMixin._simplify_combine_series = _cs
+NSM.NetlistSimplifyMixin._simplify_combine_parallel = _cp
 NetlistMixin._find_combine_subsets = _fcs
 NetlistMixin._in_series_all = _ser
 NetlistMixin._in_parallel_all = _par
